@@ -3,7 +3,7 @@
 import json, os, re, shutil, glob
 SRC = "/tmp/breakers/out"; DST = "/verif/seeded"
 rows = []
-for d in sorted(glob.glob(SRC + "/C*")):
+for d in sorted(glob.glob(SRC + "/C*") + glob.glob(SRC + "2/C*")):
     sid = os.path.basename(d)
     vj = d + "/vet.json"
     if not os.path.exists(vj):
